@@ -2,7 +2,7 @@
    Property theorems only; proofs are in ProofC01.v and ProofSession.v.  sh_words (the shell's word splitting) and
    tty_echo (the line discipline's echo) are environment models, validated against the real bash, dash and a real
    pty on every run (see Sh.v). *)
-From TV Require Import Base Utf8 Regex Channel ChannelLemmas Hush Session ProofSession Sh ProofC01.
+From TV Require Import Base Utf8 Regex Channel ChannelLemmas Hush Session ProofSession Sh ProofC01 ProofC09b.
 
 (* (1) no word splitting, globbing, expansion or injection: the shell splits the line tbot sends into exactly the
        given strings, one argument per string -- for every list of strings without NUL *)
@@ -73,3 +73,16 @@ Theorem C01_forbidden_byte_rejected :
   lx_exec args sts c = (XErr EIllegal, c, sts).
 Proof. exact lx_blacklist_rejects. Qed.
 Print Assumptions C01_forbidden_byte_rejected.
+
+(* (6) the shell's initialisation (model init_shell in Sh.v, compared with the real Bash/Ash._init_shell on every run):
+       the PS1 word is read by the shell as PS1=<prompt>, while the echo of the line that sets it does not contain
+       the prompt -- read_until_prompt cannot return on the echo of its own command *)
+Theorem C01_ps1_word_sets_the_prompt : sh_words PS1_WORD = Some [[80; 83; 49; 61]%N ++ TBOT_PROMPT].
+Proof. exact ps1_word_sets_the_prompt. Qed.
+Print Assumptions C01_ps1_word_sets_the_prompt.
+
+Theorem C01_ps1_echo_has_no_prompt :
+  contains TBOT_PROMPT (tty_echo true (PS1_LINE ++ [CR])) = false /\
+  contains TBOT_PROMPT (tty_echo false (PS1_LINE ++ [CR])) = false.
+Proof. exact ps1_echo_has_no_prompt. Qed.
+Print Assumptions C01_ps1_echo_has_no_prompt.
